@@ -72,6 +72,16 @@ Explained(e) ==
     [] e.op = "solve" -> LET D == ToDense(e.pre) IN
                          IF ~e.panic /\ Checkable(e.xs, e.L) /\ ResidualZero(D, e.xs, e.L, e.b) THEN TRUE
                          ELSE DetFF(D) = 0
+    \* ---- Gaussian-integer data on which the complex float arithmetic is exact: judged like Rat, over Gaussian rationals ----
+    [] e.op = "det_cx" -> ~e.panic /\ e.rq[2] = 1 /\ e.rqi[2] = 1 /\ <<e.rq[1], e.rqi[1]>> = CDetFF(ToDense(e.pre), ToDense(e.prei))
+    [] e.op = "solve_cx" -> LET D == ToDense(e.pre)
+                                Di == ToDense(e.prei) IN
+                            IF ~e.panic /\ Checkable(e.xs, e.L) /\ Checkable(e.xsi, e.L) /\ ResidualZeroCx(D, Di, e.xs, e.xsi, e.L, e.b, e.bi) THEN TRUE
+                            ELSE CDetFF(D, Di) = CZeroP
+    \* division by a complex scalar s + i t (exact for i, -i, -1, 2i on suitable data): result * (s + i t) = operand
+    [] e.op = "div_cx" -> /\ ~e.panic /\ (e.s # 0 \/ e.si # 0)
+                          /\ SameBand(e.pre, BLin(e.rb, e.s, e.rbi, -e.si))
+                          /\ SameBand(e.prei, BLin(e.rb, e.si, e.rbi, e.s))
     \* ---- floats: integer error units measured by the harness against double-double references ----
     [] e.op = "det_units" -> ~e.panic /\ UnitsOK(e)
     [] e.op = "solve_units" -> ~e.panic /\ UnitsOK(e)
@@ -103,7 +113,7 @@ NextPart(e, v, ok) ==
     ELSE IF e.op \in Mutators THEN After(e)
     ELSE IF e.op \in {"resize", "new"} THEN e.post
     ELSE v
-Unjudged(e) == IsSeq(e) /\ e.cid = bad /\ e.op \in {"det", "solve"}
+Unjudged(e) == IsSeq(e) /\ e.cid = bad /\ e.op \in {"det", "solve", "det_cx", "solve_cx"}
 
 Init == l = 1 /\ cur = Empty /\ curi = Empty /\ bad = -1 /\ TLCSet(1, 0)
 Step == /\ l <= NRec
@@ -117,6 +127,8 @@ Step == /\ l <= NRec
                           THEN /\ cur' = (IF ok THEN BLin(e.pre, e.s, e.prei, -e.si) ELSE e.rb)
                                /\ curi' = (IF ok THEN BLin(e.pre, e.si, e.prei, e.s) ELSE e.rbi)
                           ELSE UNCHANGED <<cur, curi>>
+                   ELSE IF e.op = "div_cx" /\ e.src = "div_assign"
+                   THEN cur' = e.rb /\ curi' = e.rbi              \* (verified against the operand by the event's own check)
                    ELSE IF TwoParts(e) THEN UNCHANGED <<cur, curi>>
                    ELSE IF ImPart(e) THEN cur' = cur /\ curi' = NextPart(e, curi, ok)
                    ELSE cur' = NextPart(e, cur, ok) /\ curi' = curi
